@@ -525,6 +525,10 @@ class Concatenator(Group):  # pylint: disable=too-many-public-methods
             entity.parent.remove_property_group(entity)
             self.update_array_attribute(parent, "property_groups")
 
+            group_id = as_str_if_uuid(entity.uid).encode()
+            if self._property_group_ids and group_id in self._property_group_ids:
+                self._property_group_ids.remove(group_id)
+
         if (
             self.concatenated_attributes is not None
             and self.attributes_keys is not None
